@@ -266,6 +266,14 @@ func Witness(g *lin.Ctx, pred func(env map[lin.Sym]int64) bool, es ...*lin.Expr)
 	return out
 }
 
+// CrossCheck (thorough tier): every proved entailment is re-examined by evaluating both sides on
+// the lattice of admissible configurations (periods 0..5, n 0..24); a disagreement breaks the check.
+var CrossCheck bool
+var crossChecks int
+
+// CrossChecks reports how many proved entailments were re-examined by evaluation.
+func CrossChecks() int { return crossChecks }
+
 // verdict of an entailment.
 type verdict int
 
@@ -278,6 +286,12 @@ const (
 // decideEQ decides g ⊢ a = b; on failure it looks for a witness.
 func decideEQ(g *lin.Ctx, a, b *lin.Expr) (verdict, map[string]int64) {
 	if lin.ProveEQ(g, a, b) {
+		if CrossCheck {
+			crossChecks++
+			if w := Witness(g, func(env map[lin.Sym]int64) bool { return a.Eval(env) != b.Eval(env) }, a, b); w != nil {
+				panic(fmt.Sprintf("decision procedure inconsistent: proved %s = %s but they differ at %v", a, b, w))
+			}
+		}
 		return holds, nil
 	}
 	w := Witness(g, func(env map[lin.Sym]int64) bool { return a.Eval(env) != b.Eval(env) }, a, b)
@@ -289,6 +303,12 @@ func decideEQ(g *lin.Ctx, a, b *lin.Expr) (verdict, map[string]int64) {
 
 // decideGE decides g ⊢ a >= b.
 func decideGE(g *lin.Ctx, a, b *lin.Expr) (verdict, map[string]int64) {
+	if CrossCheck && lin.ProveGE(g, a, b) {
+		crossChecks++
+		if w := Witness(g, func(env map[lin.Sym]int64) bool { return a.Eval(env) < b.Eval(env) }, a, b); w != nil {
+			panic(fmt.Sprintf("decision procedure inconsistent: proved %s >= %s but it fails at %v", a, b, w))
+		}
+	}
 	if lin.ProveGE(g, a, b) {
 		return holds, nil
 	}
